@@ -89,7 +89,7 @@ def run(ctx):
     F.expect_rejected(ctx, "MCFetch_c02_dev.cfg", "AtomicOnError", "atomic-on-error")
     big = None
     if thorough:
-        big = F.tlc_cases(ctx, "MCFetch_c02_t4.cfg", "exhaustive: 4 delegates x 10 states each, every threshold, local none / delegate 1 / delegate 4, clone and pull", timeout=3000, workers=6, heap="8g")
+        big = F.tlc_cases(ctx, "MCFetch_c02_t4.cfg", "exhaustive: 4 delegates x 10 states each, every threshold, local none / delegate 1, clone and pull (a slice is emitted and sampled for replay)", timeout=3000, workers=6, heap="8g")
         if big.violated:
             ctx.violation(f"model:{big.violated}", "Fetch.tla violates the invariant in the 4-delegate instance", {"tlc_counterexample": big.error_trace[:120]})
             return ctx.finish(rule=RULE)
@@ -97,7 +97,7 @@ def run(ctx):
     ordered, nclasses = F.stratified(cases, key, 0, ctx.seed)
     if not thorough:
         ordered = ordered[:420]
-    verdicts, stats, ran = F.replay(ctx, ordered, threads, 600 if thorough else 60)
+    verdicts, stats, ran = F.replay(ctx, ordered, threads, int(os.environ.get('VERIF_FETCH_BUDGET', 600 if thorough else 60)))
     done = stats.get("evaluations", 0)
     if done < (60 if not thorough else 600):
         raise vlib.ToolError(f"only {done} scenarios replayed within the time budget")
@@ -117,27 +117,21 @@ def run(ctx):
     ctx.cov["scenario_classes_in_model"] = nclasses
     ctx.cov["replay_stats"] = stats_all
     ctx.cov["model_drift_records"] = drift
+    ctx.cov["model_drift_samples"] = getattr(ctx, "drift", [])[:5]
     ctx.cov["samples"] += [F.compact(c) + " => " + c["exp"]["result"] for c in ordered[:4]]
     ctx.cov["exhaustive"] = bool(thorough and stats.get("skipped_budget", 0) == 0)
     if drift:
         vlib.log(f"MODEL-DRIFT (not a violation): {drift} replayed scenarios where the real fetch refused more than the model")
     # implementation -> spec: random scenarios with 4 namespaces, up to 3 delegates, validated by TLC
     n = 600 if thorough else 60
-    ok, info, tres, recorded, _ = F.record_and_validate(ctx, n, 4, threads)
-    if not ok:
-        at = F.reject_at(info)
-        bad = recorded[at - 1] if at and 0 < at <= len(recorded) else None
-        if bad is None:
-            raise vlib.ToolError(f"trace validation rejected without a record index: {info}")
-        sc = {k: v for k, v in bad.items() if k != "out"}
-        ctx.violation(f"{PROP} recorded: {F.compact(sc)} -> {bad['out']['result']}",
-                      "a run recorded from the real fetch is not a behaviour of Fetch.tla (or violates one of its invariants)",
-                      {"record": bad, "tlc": info})
-    else:
-        ctx.cov["traces_validated_against_impl"] += len(recorded)
-        ctx.cov["evaluations"] += len(recorded)
-        ctx.cov["recorded_runs"] = len(recorded)
-        ctx.cov["samples"] += [F.compact({k: v for k, v in recorded[0].items() if k != "out"}) + " => " + recorded[0]["out"]["result"]]
+    recorded, accepted, rdrift = F.record_and_validate(ctx, PROP, n, 4, threads, statement_checks)
+    ctx.cov["traces_validated_against_impl"] += accepted
+    ctx.cov["evaluations"] += len(recorded)
+    ctx.cov["recorded_runs"] = len(recorded)
+    ctx.cov["recorded_runs_accepted_by_tlc"] = accepted
+    ctx.cov["model_drift_records"] += rdrift
+    ctx.cov["model_drift_samples"] = getattr(ctx, "drift", [])[:5]
+    ctx.cov["samples"] += [F.compact({k: v for k, v in recorded[0].items() if k != "out"}) + " => " + recorded[0]["out"]["result"]]
     ctx.assumptions += ["the identity document (delegates, threshold) is the same on both sides and does not change during the fetch",
                         "git's object transfer is correct; Ed25519 is unforgeable",
                         "'delegates with valid signed refs' = delegates (not blocked) whose namespace, after the fetch, holds a rad/sigrefs that verifies and matches its references",
